@@ -18,6 +18,11 @@ CLAIMED = {
          "implementation compared with the extracted concrete model and checked by an independent Rust oracle of the rule.", "5/C11", ""),
  "C12": ("UniqueId uniqueness is part of `Rep`/`WF` (NoDup of ids, id set = ids held) and of the refinement lemmas; implementation compared with the model on histories with colliding ids.", "5/C12",
          "fetch_add atomicity of UniqueId::now is hardware/runtime, exercised not proven."),
+ "C16": ("Translator + finite exhaustive proof + general lemmas: the database the crates really load is regenerated into Coq (Gen/Database.v) on every run and "
+         "`db_coherent database = true` (every clause of the property, all 797 classes / 3242 descriptors / 458 enums / 7231 defaults) is re-proved by vm_compute; for ANY database passing "
+         "the check both descriptor lookups and the default lookup are total (no panic, no fuel exhaustion) and agree up to DoesNotSerialize; the two Rust copies of find_property_descriptors "
+         "are compared exhaustively with the model, and all 797 default instances are round-tripped through both real codecs.", "5/C16",
+         "The translator (harness dbdump + tools/translate.py) is trusted; rbx_reflector's generation from a Roblox dump is out of scope (the coherence check applies to whatever database.msgpack is in the tree)."),
  "C18": ("Invariant over all interleavings of the intern-table transition system (any number of threads, programs, steps): at most one live buffer per content, quiescent table empty, "
          "handle bytes stable, no stuck step / no deadlock for slot-linear programs; refutation witness for the pinned clean-up; real threads are driven through the yield hook under "
          "enforced schedules (exhaustive for small programs) and compared step by step with the extracted model.", "5/C18, A5",
